@@ -4,6 +4,7 @@ import (
 	"bytes"
 	"errors"
 	"io"
+	"strings"
 
 	"verif/core"
 	"verif/gen"
@@ -202,7 +203,10 @@ func (c20) Check(ctx *core.Ctx, c *core.Case) {
 		ctx.NonTrivial()
 	}
 
-	if c.Gen == "model" {
+	// Clause 2 on canonical documents, and on the witnesses of the formatter findings that
+	// were repaired (each is a document in or next to the canonical style whose meaning the
+	// formatter used to change), so that a regression of a fix is reported again.
+	if c.Gen == "model" || c.Gen == "directed" && strings.Contains(c.Note, "fixed finding") {
 		checkFormatCanonical(ctx, c, blocks, refs, b1.Bytes())
 	}
 }
